@@ -123,6 +123,22 @@ META = {
         level_text="History checking of the real command channel under enumerated and free-running interleavings plus a complete table of command kinds each checked for effect, promptness, last-write-wins and not-lost-before-first-callback; exploration.",
         level_note="Trusts the scheduler and the logical clock used to order history events (fetch_add on one atomic).",
     ),
+    "C08": dict(
+        level="exploration",
+        technique="runtime monitoring: shadow-model monitor of every creation result and count/capacity query over random create/drop/finish/callback histories; probe resources with Drop accounting (thread + callback flag, conservation); stale-id scenes; create-path vs remove-and-add interleavings under a controlled scheduler; free-running two-thread stress (also TSan/Miri)",
+        design_ref="DESIGN.md §3 C08",
+        rule=("Sequential histories (20-500 ops) over sub-tracks, send tracks, clocks, modulators, listeners and sounds on the main track and on sub-tracks, capacities drawn from {0,1,2,3,128}: creation must succeed exactly when (alive + awaiting removal) < capacity and otherwise return the limit error without panicking; "
+              "after every op all num_*/capacity queries of the manager and of every live track handle must equal the shadow model (removal at the next callback, at the one after if the resource had not been picked up) and never exceed the capacity; no probe sound/effect/modulator may be destroyed while its thread is inside a callback; "
+              "at teardown created == destroyed, none twice. Stale ids: after the slot of a removed clock / modulator / listener / send track is reused, what referenced the old id behaves as missing (waiting sound Stopped and silent, parameter holds its value, spatial track silent, route feeds nothing). "
+              "Concurrency: game thread creating/dropping clocks vs audio thread callbacks, parked at the res.* hooks (try_reserve, insert before/after draining the unused ring, between the remove pass and the refill loop): interleavings enumerated depth-first (bounded per shard) - results must be linearizable against [alive, alive+pending] and counts within capacity; "
+              "free-running stress with an audio thread. A history is distinct and non-trivial when at least one slot was freed and reused."),
+        domain="capacities {0,1,2,3,128}; nested tracks and persistence rules are C12's subject",
+        assumptions=["Clock and Listener are kira-internal types: their destruction thread is not observable through a probe (sounds, effects and modulators are)", "schedule enumeration is capped per shard (counts and completeness flags are in the evidence)"],
+        quick=[rel(30)],
+        thorough=[rel(600), dict(engine="native-dev", shards=16, budget=120), dict(engine="tsan", shards=4, budget=200), dict(engine="miri", shards=8, budget=240, parallel=8)],
+        level_text="Exact shadow-model monitoring over ~10^4 (quick) / 10^6 (thorough) histories, enumerated create/remove interleavings at hook granularity and sanitizer-observed stress; exploration.",
+        level_note="Trusts the shadow model of the removal rule stated in the property and the hook placement in ResourceController/ResourceStorage.",
+    ),
     "C09": dict(
         level="exploration",
         technique="runtime monitoring: differential lock-step execution of the real streaming and static Box<dyn Sound> on identical data, settings and command histories; decoder kept ahead via dec.* hooks (logical waiting)",
